@@ -3,13 +3,31 @@ C18 — property theorems (path.cc, path.hh, stringutility.hh).  Statements only
 
 All theorems are about the character-level functions the driver runs (`processPathC`, `prettyPath`,
 `pathIndicatesDirectory`, `concatPaths`, `relativePath`, `hasPrefix`, `hasSuffix`, `formatString`) and hold
-for ALL strings (`Str = List Char`), of any length.
+for ALL strings (`Str = List Char`), of any length.  `pathIndicatesDirectory`, `concatPaths`, `bufferSize` and the
+`docTable*` lists are regenerated from the source tree on every run (Gen/C18.lean).
 -/
-import DuneVerif.Proofs.C18.Extras
+import DuneVerif.Proofs.C18.Round2
 
 namespace DV.C18
 
 /-! ## processPath -/
+
+/-- termination: the `while(true)` loop that removes "<component>/../" leaves through its `break` within
+    |text|+1 iterations for every input (the model's fuel is never exhausted), so `processPathC` is the value the
+    loop computes and never the out-of-fuel marker -/
+theorem processPath_terminates (p : Str) :
+    (∃ r, processPathC? p = some r ∧ processPathC p = r) ∧ processPathC p ≠ fuelExhausted := by
+  have h := processPathC?_eq_some p
+  refine ⟨⟨processPathS p, h, processPathC_eq_S p⟩, ?_⟩
+  rw [processPathC_eq_S]
+  intro e
+  rcases render_nil_or_slash (denote p) with h0 | ⟨y, hy⟩
+  · unfold processPathS at e; rw [h0] at e; cases e
+  · unfold processPathS at e; rw [hy] at e
+    have := congrArg List.getLast? e
+    simp [fuelExhausted] at this
+
+example : processPathC? ['a', '/', 'b', '/', '.', '.', '/', '.', '.', '/', '.', '.'] = some ['.', '.', '/'] := by decide
 
 /-- refinement: the pass-by-pass transcription of `processPath` computes the component-level specification
     (split at '/', drop empty and "." components, resolve ".." with a stack clamped at the root, render). -/
@@ -25,10 +43,6 @@ theorem normal_form (p : Str) : NormalForm (processPathC p) := by
 
 example : NormalForm ['.', '.', '/', 'b', '/'] :=
   ⟨⟨false, 1, [['b']]⟩, ⟨by simp, by intro n hn; simp at hn; subst hn; unfold IsName dot dotdot; decide⟩, by decide⟩
-example : ¬ NormalForm ['a', '/', '.', '.', '/'] := by
-  intro h
-  have := processPathS_of_normalForm h
-  revert this; decide
 
 /-- the result denotes the same location as the input -/
 theorem denote_preserved (p : Str) : denote (processPathC p) = denote p := by
@@ -46,6 +60,16 @@ theorem normalForm_iff_fixed (s : Str) : NormalForm s ↔ processPathC s = s := 
   constructor
   · intro h; rw [processC_eq_S]; exact processPathS_of_normalForm h
   · intro h; rw [← h]; exact normal_form s
+
+/-- `NormalForm` is not too permissive: each kind of defect the documentation excludes is rejected
+    (missing trailing '/', empty component, "." component, ".." after a name, ".." in an absolute path) -/
+example : ¬ NormalForm ['a'] := by rw [normalForm_iff_fixed]; decide
+example : ¬ NormalForm ['a', '/', '/'] := by rw [normalForm_iff_fixed]; decide
+example : ¬ NormalForm ['.', '/'] := by rw [normalForm_iff_fixed]; decide
+example : ¬ NormalForm ['a', '/', '.', '/'] := by rw [normalForm_iff_fixed]; decide
+example : ¬ NormalForm ['a', '/', '.', '.', '/'] := by rw [normalForm_iff_fixed]; decide
+example : ¬ NormalForm ['/', '.', '.', '/'] := by rw [normalForm_iff_fixed]; decide
+example : ¬ NormalForm ['/', '/'] := by rw [normalForm_iff_fixed]; decide
 
 /-- an absolute path stays absolute and its result has no ".." component: it never escapes the root -/
 theorem abs_never_escapes_root (p : Str) (h : p.head? = some '/') :
@@ -67,6 +91,11 @@ theorem abs_never_escapes_root (p : Str) (h : p.head? = some '/') :
 
 example : processPathC ['/', '.', '.', '/', '.', '.', '/', 'a'] = ['/', 'a', '/'] := by decide
 
+/-- every row of the example table in the documentation of processPath (re-read from path.hh on every run) -/
+theorem doc_table_processPath : ∀ row ∈ docTableProcessPath, processPathC row.1 = row.2 := by decide
+
+example : docTableProcessPath.length ≥ 16 := by decide
+
 /-! ## prettyPath, pathIndicatesDirectory, concatPaths -/
 
 /-- prettyPath follows the documented table (`prettySpec`, read off the denoted location) for every input -/
@@ -77,10 +106,21 @@ theorem pretty_table (p : Str) (isDirectory : Bool) : prettyPath p isDirectory =
 theorem pretty_auto (p : Str) : prettyPathAuto p = prettySpec (denote p) (pathIndicatesDirectory p) :=
   pretty_table p _
 
+/-- pretty-printing never changes the location a path denotes -/
+theorem pretty_denote_preserved (p : Str) (isDirectory : Bool) : denote (prettyPath p isDirectory) = denote p := by
+  rw [pretty_table]; exact denote_prettySpec (denote_valid p) isDirectory
+
 example : prettyPath ['a', '/', '/', '/', 'b'] false = ['a', '/', 'b'] := by decide
 example : prettyPath ['a', '/', '.', '.'] true = ['.'] := by decide
 example : prettyPath ['.', '.', '/', 'a', '/', '.', '.'] true = ['.', '.'] := by decide
 example : prettyPathAuto ['/', '.', '.', '/', 'a', '/'] = ['/', 'a', '/'] := by decide
+
+/-- every row of the example table in the documentation of prettyPath (re-read from path.hh on every run),
+    for the model and for the specification `prettySpec` the theorem `pretty_table` is stated with -/
+theorem doc_table_prettyPath : ∀ row ∈ docTablePrettyPath,
+    prettyPath row.1 row.2.1 = row.2.2 ∧ prettySpec (denote row.1) row.2.1 = row.2.2 := by decide
+
+example : docTablePrettyPath.length ≥ 32 := by decide
 
 /-- a path indicates a directory iff its last piece (after the last '/') is empty, "." or ".." -/
 theorem indicatesDirectory_spec (p : Str) : pathIndicatesDirectory p = true ↔
@@ -90,21 +130,17 @@ theorem indicatesDirectory_spec (p : Str) : pathIndicatesDirectory p = true ↔
 example : pathIndicatesDirectory ['a', '/', '.', '.'] = true := by decide
 example : pathIndicatesDirectory ['a', '/', '.', '.', '.'] = false := by decide
 
-/-- concatPaths follows its table: an absolute `p` wins; an empty operand yields the other one; otherwise the
-    two are joined with exactly one '/' between them unless `base` already ends in one -/
+/-- concatPaths (the decision list regenerated from path.cc) follows its table: an absolute `p` wins; an empty
+    operand yields the other one; otherwise the two are joined with exactly one '/' between them unless `base`
+    already ends in one -/
 theorem concat_spec (base p : Str) :
     concatPaths base p =
       if p = [] then base
       else if p.head? = some '/' then p
       else if base = [] then p
       else if base.getLast? = some '/' then base ++ p
-      else base ++ '/' :: p := by
-  unfold concatPaths
-  by_cases h : hasSuffix base ['/'] = true
-  · have := (hasSuffix_slash_iff base).1 h
-    simp [h, this]
-  · have h' : ¬ base.getLast? = some '/' := fun e => h ((hasSuffix_slash_iff base).2 e)
-    simp [h, h']
+      else base ++ '/' :: p :=
+  concatPaths_eq_spec base p
 
 /-- what the table means: an absolute `p` is returned as is, a relative `p` is walked from where `base` leads -/
 theorem concat_denote (base p : Str) :
@@ -118,9 +154,20 @@ theorem concat_sanitized (base p : Str) (hb : NormalForm base) (hp : NormalForm 
     (hup : hasPrefix p ['.', '.', '/'] = false) : NormalForm (concatPaths base p) :=
   concat_normalForm base p hb hp hup
 
+/-- the hypotheses are satisfiable (and the conclusion is not trivial): "../a/" ++ "b/c/" -/
+example : NormalForm (concatPaths ['.', '.', '/', 'a', '/'] ['b', '/', 'c', '/']) :=
+  concat_sanitized _ _ ((normalForm_iff_fixed _).2 (by decide)) ((normalForm_iff_fixed _).2 (by decide)) (by decide)
+/-- the side condition is needed: "a/" ++ "../" is not sanitised -/
+example : ¬ NormalForm (concatPaths ['a', '/'] ['.', '.', '/']) := by rw [normalForm_iff_fixed]; decide
+
 example : concatPaths ['a'] ['b', '/'] = ['a', '/', 'b', '/'] := by decide
 example : concatPaths ['a', '/'] ['b'] = ['a', '/', 'b'] := by decide
 example : concatPaths ['a'] ['/', 'b'] = ['/', 'b'] := by decide
+
+/-- every row of the example table in the documentation of concatPaths (re-read from path.hh on every run) -/
+theorem doc_table_concatPaths : ∀ row ∈ docTableConcatPaths, concatPaths row.1 row.2.1 = row.2.2 := by decide
+
+example : docTableConcatPaths.length ≥ 12 := by decide
 
 /-! ## relativePath -/
 
@@ -133,12 +180,26 @@ theorem relative_roundtrip (newbase p r : Str) (h : relativePath newbase p = .ok
   obtain ⟨h1, h2⟩ := relative_core newbase p r h'
   rw [denote_concat_rel newbase r h1, h2]
 
-/-- the reported relative path is itself relative and sanitised -/
-theorem relative_result_relative (newbase p r : Str) (h : relativePath newbase p = .ok r) : isAbs r = false := by
+/-- relativePath is exactly the documented function of the two denoted locations: an error iff one path is
+    absolute and the other relative or the sanitised base has more leading ".." than the sanitised target;
+    otherwise the longest common list of leading components is removed, and the result goes up once per remaining
+    base component and then down the remaining target components -/
+theorem relative_exact (newbase p : Str) : relativePath newbase p = relativeSpec (denote newbase) (denote p) := by
   have hfun : processPathC = processPathS := funext processC_eq_S
-  have h' : relativePathS newbase p = .ok r := by
-    unfold relativePath at h; unfold relativePathS; rw [← hfun]; exact h
-  exact (relative_core newbase p r h').1
+  have : relativePath newbase p = relativePathS newbase p := by
+    unfold relativePath relativePathS; rw [hfun]
+  rw [this]; exact relativeS_eq_spec newbase p
+
+/-- the reported relative path is itself relative and sanitised ("has the form of something sanitized by
+    processPath()") -/
+theorem relative_result_sanitized (newbase p r : Str) (h : relativePath newbase p = .ok r) :
+    NormalForm r ∧ isAbs r = false := by
+  rw [relative_exact] at h
+  exact relativeSpec_normalForm (denote_valid p) h
+
+/-- the reported relative path is relative (kept under its round-one name) -/
+theorem relative_result_relative (newbase p r : Str) (h : relativePath newbase p = .ok r) : isAbs r = false :=
+  (relative_result_sanitized newbase p r h).2
 
 /-- a relative path is reported exactly under the documented conditions: both paths absolute or both relative,
     and the sanitised base has no more leading ".." components than the sanitised target -/
@@ -153,6 +214,11 @@ example : relativePath ['a', '/', 'b'] ['a', '/', 'c', '/', 'd'] = .ok ['.', '.'
 example : relativePath ['/', 'a'] ['/'] = .ok ['.', '.', '/'] := by decide
 example : relativePath ['.', '.'] ['a'] = .notImplemented := by decide
 example : relativePath ['/', 'a'] ['a'] = .notImplemented := by decide
+-- a component that is a proper prefix of the other one is not "common": lib vs lib64
+example : relativePath ['u', '/', 'l', 'i', 'b', '6'] ['u', '/', 'l', 'i', 'b', '/', 'd'] =
+    .ok ['.', '.', '/', 'l', 'i', 'b', '/', 'd', '/'] := by decide
+example : relativeSpec (denote ['u', '/', 'l', 'i', 'b', '6']) (denote ['u', '/', 'l', 'i', 'b', '/', 'd']) =
+    .ok ['.', '.', '/', 'l', 'i', 'b', '/', 'd', '/'] := by decide
 
 /-! ## stringutility.hh -/
 
@@ -169,16 +235,46 @@ theorem hasSuffix_iff (c suf : Str) : hasSuffix c suf = true ↔ ∃ t, c = t ++
 example : hasPrefix ['a', 'b', 'c'] ['a', 'b'] = true ∧ hasPrefix ['a', 'b'] ['a', 'b', 'c'] = false := by decide
 example : hasSuffix ['a', 'b', 'c'] ['b', 'c'] = true ∧ hasSuffix ['c'] ['b', 'c'] = false := by decide
 
-/-- formatString returns the complete formatted text whatever its length: below the 1000-byte stack buffer,
-    exactly at it (999, 1000, 1001) or far beyond -/
-theorem formatString_any_length (ideal : Str) : formatString ideal = ideal := formatString_eq ideal
+/-- formatString returns the complete formatted text whatever its length — below the stack buffer, exactly at it
+    (bufferSize-1, bufferSize, bufferSize+1) or far beyond — as long as the length is representable in the `int`
+    that snprintf returns; longer texts make snprintf fail and formatString throw.  Holds for the buffer size the
+    source has now (`bufferSize`, regenerated). -/
+theorem formatString_spec (t : Str) :
+    formatString (some t) = if t.length ≤ intMax then .ok t else .exception :=
+  formatStringWith_text bufferSize t
+
+/-- the same for ANY size of the stack buffer (so the claim survives a change of the constant) -/
+theorem formatString_any_buffer (cap : Nat) (t : Str) :
+    formatStringWith cap (some t) = if t.length ≤ intMax then .ok t else .exception :=
+  formatStringWith_text cap t
+
+/-- round-one name: every text of representable length comes back unchanged -/
+theorem formatString_any_length (t : Str) (h : t.length ≤ intMax) : formatString (some t) = .ok t := by
+  rw [formatString_spec, if_pos h]
+
+/-- a conversion error of snprintf (negative return value) makes formatString throw -/
+theorem formatString_conversion_error : formatString none = .exception :=
+  formatStringWith_convError bufferSize
+
+/-- the outcome class the driver prints for results too long to build (`F` ops) is that of formatString -/
+theorem formatString_outcome (t : Str) : (∃ s, formatString (some t) = .ok s) ↔ formatReturns t.length = true := by
+  rw [formatString_spec]
+  unfold formatReturns
+  by_cases h : t.length ≤ intMax <;> simp [h]
 
 /-- the first `snprintf` really truncates at the buffer size, so the heap branch is needed (non-vacuity) -/
-example (ideal : Str) (h : 1000 ≤ ideal.length) : (snprintfM bufferSize ideal).1 ≠ ideal := by
+example (cap : Nat) (t : Str) (hc : 0 < cap) (h : cap ≤ t.length) (h2 : t.length ≤ intMax) :
+    ∃ b, snprintfM cap (some t) = some (b, t.length) ∧ b.length = cap - 1 ∧ b ≠ t := by
+  have h3 : ¬ t.length > intMax := by omega
+  have h4 : cap ≠ 0 := by omega
+  refine ⟨t.take (cap - 1), by simp [snprintfM, h3, h4], by rw [List.length_take]; omega, ?_⟩
   intro e
   have := congrArg List.length e
-  simp [snprintfM, bufferSize] at this
+  rw [List.length_take] at this
   omega
-example : formatString (List.replicate 1000 'a') = List.replicate 1000 'a' := formatString_any_length _
+example : formatString (some (List.replicate 1000 'a')) = .ok (List.replicate 1000 'a') :=
+  formatString_any_length _ (by rw [List.length_replicate]; unfold intMax; omega)
+example : formatString (some (List.replicate 2147483648 'a')) = .exception := by
+  rw [formatString_spec, List.length_replicate]; rfl
 
 end DV.C18
